@@ -382,6 +382,26 @@ type cycLate struct {
 	V    int `vd:"$>=0"`
 }
 
+// embBase / embPage / embReq: a member selected by name ($['LogID']) that is promoted through
+// an embedded pointer which may be nil: absent, i.e. nil, not a panic
+type embBase struct{ LogID string }
+type embPage struct {
+	*embBase
+	Size int
+}
+type embReq struct {
+	Page embPage `vd:"$['Size']>0 && ($['LogID']==nil || len($['LogID'])<=8)"`
+}
+
+// EmbItems: a named slice type embedded in the bound struct; its elements carry expressions
+type EmbItem struct {
+	Qty int `json:"qty" vd:"$>0 && $<=10"`
+}
+type EmbItems []EmbItem
+type embOrder struct {
+	EmbItems `json:"items"`
+}
+
 // tagQuote writes the expression the way it stands between the double quotes of a struct
 // tag (a Go string literal: backslashes doubled)
 func tagQuote(expr string) string {
@@ -840,6 +860,48 @@ func cyclicFamily(w *mon.W) {
 		if pv != nil {
 			c.Violate(mon.PanicKey(stack), "Validate panics on a tree of cycLate nodes: %v", pv)
 			return
+		}
+		// members selected by name through an embedded pointer that is nil or not
+		for k := 0; k < 2; k++ {
+			rq := &embReq{Page: embPage{Size: r.Intn(3)}}
+			wantOK := rq.Page.Size > 0
+			if r.Bool() {
+				rq.Page.embBase = &embBase{LogID: r.Str("", "short", "longer-than-eight")}
+				wantOK = wantOK && len(rq.Page.LogID) <= 8
+			}
+			var e2 error
+			pv2, st2 := mon.Guard(func() { e2 = binding.Validate(rq) })
+			w.Count("validations", 1)
+			if pv2 != nil {
+				c.Violate(mon.PanicKey(st2), "Validate panics on %+v (embedded pointer nil: %v) with the expression %q: %v", rq.Page, rq.Page.embBase == nil, "$['Size']>0 && ($['LogID']==nil || len($['LogID'])<=8)", pv2)
+				return
+			}
+			if (e2 == nil) != wantOK {
+				c.Violate("accept-reject", "struct member selectors through an embedded pointer: Size=%d, embedded pointer nil=%v: Validate returned %v, the expression evaluates to %v", rq.Page.Size, rq.Page.embBase == nil, e2, wantOK)
+				return
+			}
+		}
+		// an embedded named slice whose elements carry expressions, through BindAndValidate
+		{
+			q1, q2 := 1+r.Intn(10), r.Intn(13)
+			req := &protocol.Request{}
+			req.SetRequestURI("http://h/p")
+			req.Header.SetMethod("POST")
+			req.Header.SetContentTypeBytes([]byte("application/json"))
+			req.SetBody([]byte(fmt.Sprintf(`{"items":[{"qty":%d},{"qty":%d}]}`, q1, q2)))
+			req.Header.SetContentLength(len(req.Body()))
+			var o embOrder
+			var e3 error
+			pv3, st3 := mon.Guard(func() { e3 = binding.BindAndValidate(req, &o, nil) })
+			w.Count("validations_through_bindandvalidate", 1)
+			if pv3 != nil {
+				c.Violate(mon.PanicKey(st3), "BindAndValidate panics on an embedded slice type: %v", pv3)
+				return
+			}
+			if wantOK := q2 > 0 && q2 <= 10; len(o.EmbItems) == 2 && (e3 == nil) != wantOK {
+				c.Violate("accept-reject", "struct{ Items `json:\"items\"` } (embedded []Item, Item.Qty `vd:\"$>0 && $<=10\"`), body qty=%d,%d: BindAndValidate returned %v, the expressions evaluate to %v", q1, q2, e3, wantOK)
+				return
+			}
 		}
 		if (err == nil) == badLate {
 			c.Detail = func() interface{} {
